@@ -9,7 +9,7 @@ b-apci (range checks for ADC channel, property start index, manufacturer info
 data, empty table-write data, bit-write count, A_ADC_Response channels that are
 the APCI of another service, empty DPTArray, Data Secure field lengths).
 -/
-import XknxVerif.Lemmas.APCITableWF
+import XknxVerif.Lemmas.APCIGuard
 
 namespace XknxVerif.Props.C06
 open XknxVerif.APCI
@@ -58,23 +58,22 @@ theorem enum_nonmember_refused (w : Nat) (tbl : List Nat) (i : Int) (vs : List V
   · omega
   · exact h (by simpa using hm)
 
-/-- Emitted APCI codes for a row: the code itself for 10 bit rows; for 4 bit rows
-`code | x` for every 6 bit `x` the first payload field can take (only 0 if it is reserved). -/
-def emittedCodes (r : Row) : List Nat :=
-  if !r.short then [r.code] else
-  if r.variants.all (fun v => v.body.head? == some (.reserved 6)) then [r.code]
-  else (List.range 64).map (r.code + ·)
-
 /-- The closing guard of `encodeAPDU` ("the emitted APCI dispatches back to this row") is
 the model of the collision check added to `ADCResponse.to_knx`.  For every other row it
-can never fail: all codes the row can emit dispatch to the row.  For `ADCResponse` it
-fails exactly for the channels that are the APCI of a 10 bit service. -/
-theorem guard_only_adc :
-    (table.zipIdx.all fun (r, i) =>
-      r.name == "ADCResponse" || (emittedCodes r).all (fun c => findRow c == some i)) = true ∧
+can never fail - whatever values are encoded - so the model has no refusal the code lacks. -/
+theorem dispatch_guard_dead (i : Nat) (row : Row) (v : Variant) (vals : List Val) (bits : Bits)
+    (hrow : table[i]? = some row) (hv : v ∈ row.variants) (hn : (row.name == "ADCResponse") = false)
+    (he : encodeFields (fullFields row v) vals = some bits) : findRow (codeOfBits bits) = some i :=
+  guard_vacuous i row v vals bits hrow hv hn he
+
+/-- For `ADCResponse` (row 78) the guard fails exactly for the 18 channels whose APCI is that of
+a 10 bit service: 8-10, 12-22, 59-62 - the set the fixed `to_knx` refuses. -/
+theorem adc_shadowed_channels :
     ((List.range 64).filter (fun ch => findRow (0x1C0 + ch) != some 78)
       = [8, 9, 10, 12, 13, 14, 15, 16, 17, 18, 19, 20, 21, 22, 59, 60, 61, 62]) ∧
-    (table[78]?.map (·.name)) = some "ADCResponse" := by
+    (table[78]?.map (·.name)) = some "ADCResponse" ∧
+    ((List.range 64).filter (fun ch => Generated.APCI.apciService.any (fun p => p.2 == 0x1C0 + ch && ch != 0))
+      = [8, 9, 10, 12, 13, 14, 15, 16, 17, 18, 19, 20, 21, 22, 59, 60, 61, 62]) := by
   decide +kernel
 
 /-! The defects of the pinned tree are refusals in the (fixed) model. -/
